@@ -43,6 +43,10 @@ def run(ctx):
                        ("PBES2-HS256+A128KW", 1000), ("PBES2-HS512+A256KW", 1001)):
         forced.append((alg_, "A128CBC-HS256", b"pbes2 with a caller p2c", False, {"p2c": p2c_}))
     forced.append(("PBES2-HS256+A128KW", "A128GCM", b"pbes2 with a caller salt", False, {"p2s": "c2FsdHNhbHRzYWx0"}))
+    # plaintexts up to the decompression limit, with and without compression
+    bigs = E.big_plaintexts(rng, ctx.tier)
+    for i, (_label, big) in enumerate(bigs if ctx.tier == "quick" else rng.sample(bigs, 16)):
+        forced.append((("dir", "A128GCM") if i % 2 == 0 else ("A128KW", "A128CBC-HS256")) + (big, i % 5 != 4, None))
     todo = [(a, e_, None, None, None) for a, e_ in E.combos(rng, n)] + forced
     for alg, enc, forced_pt, forced_zip, forced_extra in todo:
         kn = E.key_name(alg, enc, rng)
@@ -132,6 +136,7 @@ def run(ctx):
     E.run_decrypt_cases(ctx, "own-output-decrypt", [c for c, _ in dcases], check_c02=True, prop="C04")
     multi(ctx)
     multi_headerless(ctx)
+    big_roundtrips(ctx)
     refusals(ctx)
 
 
@@ -150,6 +155,57 @@ def compare_tokens(ser, alg, model_tok, impl_v):
             for r in d.get("recipients", []):
                 r.pop("encrypted_key", None)
     return mv == iv, repr(mv)
+
+
+def big_roundtrips(ctx):
+    """Plaintexts up to the decompression limit, zip=DEF and none: a grid of lengths at and just past 4 KiB ... 128 KiB
+    (the buffer sizes a chunked inflate loop would use) and at the limit itself x constant / periodic / text / random
+    content.  joserfc encrypts and joserfc decrypts: the result must be the original octets - a truncated prefix is a
+    silent failure no error path reports.  (A sample of the same plaintexts also goes through the model in `run`.)"""
+    from joserfc import jwe
+    rng = ctx.rng
+    grid = []
+    bases = (4096, 8192, 16384, 32768, 65536, 131072) if ctx.tier == "quick" else (4096, 8192, 12288, 16384, 24576, 32768, 49152, 65536, 98304, 131072, 196608)
+    for base in bases:
+        for d in ((0, 1, 100) if ctx.tier == "quick" else (0, 1, 2, 3, 17, 100, 200, 1000)):
+            grid.append(base + d)
+    grid += [255999, 256000]
+    k16, k32 = K.key("oct16"), K.key("oct32")
+
+    def textures(n):
+        yield "zeros", bytes(n)
+        per = rng.choice([3, 7, 100, 1000, 6000])
+        unit = rng.randbytes(per)
+        yield f"period{per}", (unit * (n // per + 1))[:n]
+        unit = b'{"id": 12345, "name": "user", "roles": ["a", "b"], "active": true}, '
+        yield "text", (unit * (n // len(unit) + 1))[:n]
+        if ctx.tier != "quick" or rng.random() < 0.3:
+            yield "random", rng.randbytes(n)
+    for n in grid:
+        for label, pt in textures(n):
+            for zipped in (True, False) if label == "zeros" else (True,):
+                alg, enc, key = rng.choice([("dir", "A128GCM", k16), ("A128KW", "A128CBC-HS256", k16), ("dir", "A256GCM", k32)])
+                prot = {"alg": alg, "enc": enc}
+                if zipped:
+                    prot["zip"] = "DEF"
+                ser = rng.choice(["compact", "flat"])
+                try:
+                    if ser == "compact":
+                        tok = jwe.encrypt_compact(dict(prot), pt, key, algorithms=E.ALL_NAMES)
+                        got = jwe.decrypt_compact(tok, key, algorithms=E.ALL_NAMES).plaintext
+                    else:
+                        obj = jwe.FlattenedJSONEncryption(dict(prot), pt)
+                        obj.add_recipient(None, key)
+                        tok = jwe.encrypt_json(obj, None, algorithms=E.ALL_NAMES)
+                        got = jwe.decrypt_json(copy.deepcopy(tok), key, algorithms=E.ALL_NAMES).plaintext
+                    out = "ok" if got == pt else f"plaintext of {len(pt)} octets came back as {len(got)} octets" + (" (a prefix)" if pt.startswith(got) else "")
+                except Exception as e:  # noqa: BLE001
+                    out = err_name(e)
+                ctx.count("big-roundtrip", (n, label, zipped, alg, enc, ser), True, f"{label}:{'DEF' if zipped else 'plain'}:{out if out == 'ok' else 'FAIL'}")
+                if out != "ok":
+                    ctx.report(f"decrypt(encrypt(p)) != p for a {label} plaintext of {n} octets ({alg}/{enc}, {'zip=DEF' if zipped else 'no zip'}, {ser}): {out}",
+                               {"length": n, "texture": label, "protected": prot, "serialization": ser, "token": tok if len(str(tok)) < 3000 else str(tok)[:3000] + "...",
+                                "key": key.as_dict()}, f"big:{label}:{zipped}")
 
 
 def multi(ctx):
